@@ -726,11 +726,33 @@ class World:
             return {"error": err}
         raise HarnessError("unknown error form %r" % form)
 
-    def _fn(self, name, params, style, sid, kind):
+    def _fn(self, name, params, style, sid, kind, old_names=()):
         """A generated condition/capture with the given parameter names that hands over to run.hit/ahit."""
         run = self.run
         ns = {"_hit": lambda: run.hit(sid, kind), "_ahit": lambda: run.ahit(sid, kind)}
         plist = ", ".join(params)
+        if "OLD" in params and old_names:
+            # a postcondition with OLD reads every snapshot of its own function and records whether it sees the captured value
+            def _see(OLD):
+                seen = []
+                for nm, snap_sid in old_names:
+                    try:
+                        v = getattr(OLD, nm)
+                        seen.append([nm, v == ("old", snap_sid)])
+                    except AttributeError:
+                        seen.append([nm, "missing"])
+                a = run.actor()
+                run.ev("old", sid, a.tstack[-1].xid if a.tstack else None, seen)
+
+            ns["_see"] = _see
+            if style == "sync":
+                src = "def %s(%s):\n    _see(OLD)\n    return _hit()\n" % (name, plist)
+            elif style == "async":
+                src = "async def %s(%s):\n    _see(OLD)\n    return await _ahit()\n" % (name, plist)
+            else:
+                src = "def %s(%s):\n    _see(OLD)\n    return _ahit()\n" % (name, plist)
+            exec(src, ns)  # pylint: disable=exec-used
+            return ns[name]
         if style == "sync":
             src = "def %s(%s):\n    return _hit()\n" % (name, plist)
         elif style == "async":
@@ -761,12 +783,13 @@ class World:
         snaps = spec.get("snaps", ()) if (post or spec.get("force_snaps")) else ()
         has_old = (bool(snaps) or bool(spec.get("old_inherited"))) and not spec.get("no_old")
         pparams = tuple(params) + ("result",) + (("OLD",) if has_old else ())
+        old_names = [(sn.get("name") or ("s_" + _san("%s/snap%d" % (owner, i))), "%s/snap%d" % (owner, i)) for i, sn in enumerate(snaps) if not sn.get("omit") and sn.get("enabled", "true") == "true"]
         for i, c in enumerate(post):
             sid = "%s/post%d" % (owner, i)
             if c.get("omit"):
                 continue
             dec = icontract.ensure(
-                self._fn("c_" + _san(sid), pparams, c.get("style", "sync"), sid, "post"),
+                self._fn("c_" + _san(sid), pparams, c.get("style", "sync"), sid, "post", old_names),
                 description="[[%s]]" % sid,
                 **self._enabled_kw(c),
                 **self._error_kw(sid, c.get("error"), False)
